@@ -51,10 +51,14 @@ def fit_mvstud(data, tolerance=1e-6, max_iter=100):
             )
             return f
 
-        if func0(1e300) >= 0:
+        # func0 decays like 1/nu**2; beyond ~1e6 it is below floating-point
+        # resolution (it evaluates to exactly 0.0 at 1e300, which made every
+        # fit report nu = inf), so probe the Gaussian limit at a finite bound.
+        nu_max = 1e6
+        if func0(nu_max) >= 0:
             nu = np.inf
         else:
-            nu = optimize.bisect(func0, 1e-300, 1e300)
+            nu = optimize.bisect(func0, 1e-300, nu_max)
         return nu
 
     data = data.T
